@@ -76,6 +76,13 @@ def gen_case(rng, tier, exact):
         if not cfg['update_factors_in_hook'] and rng.random() < 0.35:
             hist.append(['attempt', rng.randint(1, 2)])      # pending micro-batches discarded by reset_batch(): they must leave no trace
         hist.append(['train', acc])
+    if not cfg['update_factors_in_hook'] and cfg['data_seed'] % 2 == 0:
+        # stratum (derived from the data seed: the random stream of the other fields is unchanged): train-mode forward passes that
+        # are never back-propagated, so A and G accumulate different numbers of micro-batches; each is the mean over its own
+        # (in the exact regime the total number of forward passes stays a power of two)
+        for e in hist:
+            if e[0] == 'train':
+                e.append(acc if exact else 1)
     return cfg, hist
 
 
